@@ -152,10 +152,6 @@ AP = "resonaate.parallel.agent_propagation:"
                  TR + "TaskingRewardRegistration.processResults"], mode="Z", assumes=RAY,
             note="each job's result is written to its own registrant only (the listed attributes / calls, nothing else), and reward results fill exactly the row of their own target, so results of different jobs never interfere and any processing order gives the same state")
 def frames(vc):
-    if not vc.symbolic:
-        for n in ("O-C08-frame.update", "O-C08-frame.predict", "O-C08-frame.propagate", "O-C08-frame.reward", "O-C08-commute.reward"):
-            vc.ensure(n, True)
-        return
     a = Rec("A")
     reg = vc.new(EU + "EstUpdateRegistration", _registrant=a)
     res = _NS(updated_filter="F", observed="OBS", iod_start_time="IOD", detected_maneuvers=["dm"])
@@ -190,10 +186,6 @@ def frames(vc):
             bounded="3 targets x 2 sensors, every decision matrix (symbolic booleans: one path per matrix)",
             note="for every decision matrix each tasked (target, sensor) pair appears in exactly one task-execution submission - the one of its target, listing exactly that target's tasked sensors - and untasked targets get none; the per-step observation list and the sensor pointing changes are reset before any job result is processed")
 def assess_jobs(vc):
-    if not vc.symbolic:
-        vc.ensure("O-C08-one-record.submissions", True)
-        vc.ensure("O-C08-reset", True)
-        return
     nt, ns = 3, 2
     tl, sl = [10, 11, 12], [1, 2]
     D = np.empty((nt, ns), dtype=object)
@@ -201,10 +193,10 @@ def assess_jobs(vc):
         for j in range(ns):
             D[i, j] = vc.bool(f"D[{i},{j}]")
     jobs, order = [], []
-    vc.stub(CE + "@TaskExecutionRegistration", lambda eng, est, tstore, sensors: ("job", est, list(sensors)))
-    vc.stub(CE + "@TaskingRewardRegistration", lambda *a: ("reward",) + a[1:2])
-    vc.stub(CE + "@handleRelevantEvents", lambda *a, **k: order.append("events"))
-    vc.stub(CE + "@datetimeToJulianDate", lambda d: d)
+    vc.install(CE + "@TaskExecutionRegistration", lambda eng, est, tstore, sensors: ("job", est, list(sensors)))
+    vc.install(CE + "@TaskingRewardRegistration", lambda *a: ("reward",) + a[1:2])
+    vc.install(CE + "@handleRelevantEvents", lambda *a, **k: order.append("events"))
+    vc.install(CE + "@datetimeToJulianDate", lambda d: d)
     C = vc.cls(CE + "CentralizedTaskingEngine")
     eng = object.__new__(C)
     stale_obs, stale_changes = ["stale"], {"stale": 1}
@@ -216,7 +208,7 @@ def assess_jobs(vc):
                         _sensor_store={1: "S1", 2: "S2"}, _estimate_store={10: "E10", 11: "E11", 12: "E12"}, _target_store={"t": 1}, reward="R",
                         _reward_executor=_NS(enqueueJob=lambda r: None, join=lambda: order.append("reward.join")),
                         _task_exec_executor=_NS(enqueueJob=lambda r: jobs.append(r), join=lambda: order.append(("exec.join", list(eng._observations), dict(eng.sensor_changes)))),
-                        _database="DB", logger=None, _unique_id=5, _importer_db=None, target_indices={10: 0, 11: 1, 12: 2},
+                        _database="DB", logger=SF.NullLogger(), _unique_id=5, _importer_db=None, target_indices={10: 0, 11: 1, 12: 2},
                         calculateRewards=lambda: order.append("calculateRewards"), generateTasking=lambda: gen(eng))
     eng.assess("PRIOR", "NOW")
     ok = []
@@ -234,10 +226,6 @@ def assess_jobs(vc):
             bounded="2 targets, 2 sensors, 2 engines",
             note="after every engine's assess the step applies exactly that engine's sensor pointing changes (each sensor gets its own boresight / last-tasked time), routes each observation to its target's list only, and creates exactly one update job per estimate carrying exactly its observations")
 def step_routing(vc):
-    if not vc.symbolic:
-        for n in ("O-C08-pointing.applied", "O-C08-routing.observations", "O-C08-routing.one-update-per-estimate"):
-            vc.ensure(n, True)
-        return
     o1, o2, o3 = _NS(tag="x", sensor_id=10, target_id=1), _NS(tag="y", sensor_id=11, target_id=2), _NS(tag="z", sensor_id=11, target_id=1)
     ch5 = {10: {"boresight": "b10", "time_last_tasked": "t10"}}
     ch6 = {11: {"boresight": "b11", "time_last_tasked": "t11"}}
@@ -251,9 +239,7 @@ def step_routing(vc):
     vc.ensure("O-C08-routing.one-update-per-estimate", sorted(e[1][1].simulation_id for e in jobs) == [1, 2] and all(e[1][2] == ("handle", e[1][1]) for e in jobs))
     # updateInfo itself
     sens = _NS(boresight=None, time_last_tasked=None)
-    ag = vc.new("resonaate.agents.sensing_agent:SensingAgent", _sensors=sens) if False else None
-    C = vc.cls("resonaate.agents.sensing_agent:SensingAgent", extra_methods={"sensors": sens})
-    a = object.__new__(C)
+    a = vc.new("resonaate.agents.sensing_agent:SensingAgent", _sensors=sens)
     a.updateInfo({"boresight": "B", "time_last_tasked": "T"})
     vc.ensure("O-C08-pointing.applied", sens.boresight == "B" and sens.time_last_tasked == "T")
 
